@@ -16,7 +16,7 @@
    below the capacity in total; the data-carrying channels are unrestricted (below / at / above capacity).
    Not proved here (partial): the remote placement (comms threads, socket, ssh) - differential only;
    "every fault the doer *answered* is seen by the boss before the Done marker" is C07's theorem. *)
-From RJ Require Import Base.Prelude Model.Shutdown Proofs.ShutdownProofs Proofs.ShutdownInv Proofs.ShutdownNoStuck Proofs.ShutdownImpl.
+From RJ Require Import Base.Prelude Model.Shutdown Proofs.ShutdownProofs Proofs.ShutdownInv Proofs.ShutdownNoStuck Proofs.ShutdownImpl Proofs.ShutdownBelow.
 
 Theorem C09_no_stuck : forall c x s,
   fixed c = true -> ctl_ok c x -> reach c x s -> final s = true \/ exists s', step c s s'.
@@ -57,6 +57,12 @@ Proof.
   exists c, x, s. destruct (stuck_sound _ _ H4). auto.
 Qed.
 
+(* ... and only above capacity: when everything that can ever be queued in the two data-carrying channels fits
+   in the capacity (data_ok), no reachable state is stuck - with or without the repair. *)
+Theorem C09_holds_below_capacity : forall c x s,
+  ctl_ok c x -> data_ok c x -> reach c x s -> final s = true \/ exists s', step c s s'.
+Proof. exact holds_below_capacity. Qed.
+
 (* The executable model the judge runs (priority schedules, fuel = measure + 1) only visits reachable states
    and ends where no action of the order is enabled. *)
 Theorem C09_run_sound : forall c x ord,
@@ -75,3 +81,4 @@ Print Assumptions C09_no_stuck.
 Print Assumptions C09_terminates.
 Print Assumptions C09_exit_nonzero.
 Print Assumptions C09_refuted_unfixed.
+Print Assumptions C09_holds_below_capacity.
